@@ -337,7 +337,8 @@ class World:
         return None
 
     def sim_download(self, uri, filepath, NotFound):
-        res = uri.split("://", 1)[1].split("/", 1)[1].split("<<")[0]
+        # the resource sees the uri literally: stripping the "<<comment" is the cache's job
+        res = uri.split("://", 1)[1].split("/", 1)[1]
         key = self._attribute_key(filepath, res)
         self.sched("net.req", uri, 0)
         self.fetchlog.add("sim", res, self.sched.owner(), self.sched.step)
@@ -364,7 +365,7 @@ class World:
 
     def http_get(self, url, **kwargs):
         import requests as _rq
-        res = url.split("://", 1)[1].split("/", 1)[1].split("<<")[0]
+        res = url.split("://", 1)[1].split("/", 1)[1]
         self.sched("net.req", url, 0)
         self.fetchlog.add("https", res, self.sched.owner(), self.sched.step)
         fault = self.director.take_fault(NET_FAULTS, None, res)
